@@ -62,6 +62,10 @@ impl Wake for TaskW {
     fn wake_by_ref(self: &Arc<Self>) {
         self.sh.task_inv[self.id].fetch_add(1, Relaxed);
         self.sh.woken[self.id].store(true, SeqCst);
+        // a task waker may take its time (think of an executor that takes a lock to reschedule):
+        // with failpoints on, linger here so that whatever the crate does right after notifying
+        // overlaps with the consumer's reaction to the notification
+        delay_point();
     }
 }
 
@@ -191,6 +195,36 @@ static FP_PERMILLE: AtomicU32 = AtomicU32::new(0);
 thread_local! {
     static TRNG: std::cell::RefCell<Rng> = std::cell::RefCell::new(Rng::new(0x7157));
     static TID: std::cell::Cell<u64> = const { std::cell::Cell::new(0) };
+}
+
+fn delay_point() {
+    let pm = FP_PERMILLE.load(Relaxed);
+    if pm == 0 {
+        return;
+    }
+    let (hit, spins) = TRNG.with(|r| {
+        let mut r = r.borrow_mut();
+        (r.below(1000) < pm as usize * 4, r.below(400))
+    });
+    if hit {
+        if spins % 3 == 0 || cfg!(miri) {
+            std::thread::yield_now();
+        } else {
+            for _ in 0..spins {
+                std::hint::spin_loop();
+            }
+        }
+    }
+}
+
+/// probe that only serves the failpoints: no monitor state, no lock, no memory ordering of its own
+pub fn fp_only_probe(p: &futures_buffered::verif::Probe) {
+    if let futures_buffered::verif::Probe::Point(i) = *p {
+        POINTS[i as usize & 7].fetch_add(1, Relaxed);
+        if i < 4 {
+            delay_point();
+        }
+    }
 }
 
 fn block_of(m: &mut BlockMon, p: usize) -> Option<&mut Block> {
@@ -422,6 +456,7 @@ pub struct RoundStats {
     pub spurious_polls: u64,
     pub task_switches: u64,
     pub items: u64,
+    pub cancelled: bool,
 }
 
 pub struct RoundCfg {
@@ -431,6 +466,8 @@ pub struct RoundCfg {
     pub calls: usize,
     pub track_blocks: bool,
     pub migrate: bool,
+    /// drop the collection after this many polls, while the waker threads are still at work
+    pub cancel_after: Option<u64>,
 }
 
 fn spin_or_yield(i: &mut u32) {
@@ -557,6 +594,7 @@ pub fn round(cfg: &RoundCfg, seed: u64) -> (Vec<(String, String, String)>, Round
     }
 
     // ---- consumer: honest executor with occasional spurious polls
+    let cancel_after = cfg.cancel_after;
     let consumer = move |mut subj: MtSubject, sh: Arc<Shared>, tasks: Vec<Waker>, mut rng: Rng, handles: Vec<std::thread::JoinHandle<u64>>| {
         let mut st = RoundStats::default();
         let mut sig = FNV0;
@@ -573,6 +611,11 @@ pub fn round(cfg: &RoundCfg, seed: u64) -> (Vec<(String, String, String)>, Round
             if guard > 2_000_000 {
                 sh.violation("INCONCLUSIVE", "round_watchdog", "round did not finish within its logical step cap".into());
                 break;
+            }
+            if cancel_after.map_or(false, |c| st.polls >= c) && handles.is_some() {
+                // cancellation: the caller drops the collection right now, waker threads still running
+                st.sig = sig;
+                return (subj, st, false, seen, next_seq, handles);
             }
             if rng.chance(1, 5) {
                 let nk = rng.below(3);
@@ -631,15 +674,19 @@ pub fn round(cfg: &RoundCfg, seed: u64) -> (Vec<(String, String, String)>, Round
                     }
                 }
             }
-            // sleep until the most recent task waker is invoked (or poll spuriously)
+            // sleep until the most recent task waker is invoked. A spurious poll (legal for any
+            // executor) is decided once per sleep, not per spin: frequent spurious polls would
+            // pick up an entry whose notification was lost and hide the very thing we look for
+            let mut spurious_after = if !phase_b && rng.chance(1, 24) { rng.range(1, 400) as i64 } else { -1 };
             loop {
                 if sh.woken[k].load(SeqCst) {
                     break;
                 }
-                if !phase_b && rng.chance(1, if cfg!(miri) { 6 } else { 3000 }) {
+                if spurious_after == 0 && !sh.wakers_done.load(SeqCst) && handles.is_some() {
                     st.spurious_polls += 1;
                     break;
                 }
+                spurious_after -= 1;
                 let all_joined = handles.as_ref().map_or(true, |h| h.iter().all(|h| h.is_finished()));
                 if all_joined {
                     if let Some(hs) = handles.take() {
@@ -701,9 +748,9 @@ pub fn round(cfg: &RoundCfg, seed: u64) -> (Vec<(String, String, String)>, Round
             }
         }
         st.sig = sig;
-        (subj, st, finished, seen, next_seq)
+        (subj, st, finished, seen, next_seq, None)
     };
-    let (subj, cst, finished, seen, _next_seq) = if cfg.migrate {
+    let (subj, cst, finished, seen, _next_seq, running) = if cfg.migrate {
         // the collections are Send: construct here, consume on another thread, drop here
         let (sh2, t2) = (sh.clone(), tasks.clone());
         std::thread::spawn(move || consumer(subj, sh2, t2, Rng::new(seed ^ 0xc0), handles)).join().expect("consumer thread")
@@ -733,9 +780,20 @@ pub fn round(cfg: &RoundCfg, seed: u64) -> (Vec<(String, String, String)>, Round
         }
     }
 
+    let mut subj = Some(subj);
+    if let Some(hs) = running {
+        // cancelled mid-flight: the collection goes while wakers are being invoked elsewhere
+        drop(subj.take());
+        for h in hs {
+            st.overlapping_wakes += h.join().unwrap_or(0);
+        }
+        st.cancelled = true;
+    }
     // ---- death order: collection first / wakers first / concurrently
     let leftovers: Vec<Waker> = sh.kids.iter().flat_map(|k| std::mem::take(&mut *k.mailbox.lock().unwrap())).collect();
     let order = rng.below(3);
+    // every left-over waker is used a few times and then either dropped or consumed by a
+    // by-value `wake()` (which gives up its reference *and* touches the block)
     let use_and_drop = |sh: &Shared, ws: Vec<Waker>, r: &mut Rng| -> u64 {
         let mut calls = 0;
         for w in ws {
@@ -753,39 +811,59 @@ pub fn round(cfg: &RoundCfg, seed: u64) -> (Vec<(String, String, String)>, Round
                     }
                 }
             }
-            mt_drop(sh, w);
+            if r.chance(1, 2) {
+                calls += 1;
+                mt_wake(sh, w);
+            } else {
+                mt_drop(sh, w);
+            }
         }
         calls
     };
     match order {
         0 => {
-            drop(subj);
+            drop(subj.take());
             st.orphan_calls += use_and_drop(&sh, leftovers, &mut rng);
         }
         1 => {
             use_and_drop(&sh, leftovers, &mut rng);
-            drop(subj);
+            drop(subj.take());
         }
         _ => {
-            let half = leftovers.len() / 2;
+            // concurrently: the collection dies on this thread while the last wakers are used and
+            // given up on another one; both sides start together
+            let keep = if leftovers.is_empty() { 0 } else { rng.below(leftovers.len().min(3) + 1) };
             let mut l = leftovers;
-            let other = l.split_off(half);
+            let other = l.split_off(keep);
             let sh2 = sh.clone();
             let mut r2 = Rng::new(seed ^ 0xdead);
+            let go = Arc::new(AtomicBool::new(false));
+            let go2 = go.clone();
             let h = std::thread::spawn(move || {
                 TID.with(|x| x.set(99));
-                let mut calls = 0;
-                for w in other {
-                    for _ in 0..r2.below(3) {
-                        calls += 1;
-                        w.wake_by_ref();
-                    }
-                    mt_drop(&sh2, w);
+                let mut other = other;
+                // everything but the last waker first; then tell the owner, so that the end of
+                // the collection and the end of the last waker overlap
+                let last = other.pop();
+                let mut calls = use_and_drop_owned(&sh2, other, &mut r2);
+                go2.store(true, SeqCst);
+                for _ in 0..r2.below(60) {
+                    std::hint::spin_loop();
+                }
+                if let Some(w) = last {
+                    calls += use_and_drop_owned(&sh2, vec![w], &mut r2);
                 }
                 calls
             });
             st.orphan_calls += use_and_drop(&sh, l, &mut rng);
-            drop(subj);
+            let mut i = 0;
+            while !go.load(SeqCst) {
+                spin_or_yield(&mut i);
+            }
+            for _ in 0..rng.below(60) {
+                std::hint::spin_loop();
+            }
+            drop(subj.take());
             st.orphan_calls += h.join().unwrap_or(0);
         }
     }
@@ -797,6 +875,22 @@ pub fn round(cfg: &RoundCfg, seed: u64) -> (Vec<(String, String, String)>, Round
     }
     let v = sh.viol.lock().unwrap().clone();
     (v, st)
+}
+
+fn use_and_drop_owned(sh: &Shared, ws: Vec<Waker>, r: &mut Rng) -> u64 {
+    let mut calls = 0;
+    for w in ws {
+        calls += 1;
+        match r.below(4) {
+            0 => {
+                w.wake_by_ref();
+                mt_drop(sh, w);
+            }
+            1 => mt_drop(sh, w),
+            _ => mt_wake(sh, w),
+        }
+    }
+    calls
 }
 
 pub fn blocks_begin() {
